@@ -35,7 +35,7 @@ def run(ctx):
     ctx.rule("R03.c", "Comparator: numbers/str/None/dates compare with operator.eq, containers recurse, and every fall-through return on a mismatch is the literal False", floor=6)
     ctx.rule("R03.d", "_update_event_type: 'triggered' if triggered else 'changed' if onlychanged else 'set' (4 abstract cases, exhaustive)", floor=1)
     ctx.rule("R03.e", "_register_watcher appends to / removes from the table paths the setter and _trigger_event read", floor=3)
-    ctx.rule("R03.f", "_call_watcher: a watcher is skipped iff (not TRIGGER and onlychanged and not changed); otherwise queued iff batching else executed (16 abstract cases, exhaustive)", floor=1)
+    ctx.rule("R03.f", "_call_watcher: a watcher is skipped iff (not TRIGGER and onlychanged and not changed); otherwise queued iff batching else executed (32 abstract cases, exhaustive)", floor=1)
     ctx.not_decided += ["exactly-once delivery counts, depth-first cascades and queued semantics over all programs (need an executable reference semantics)"]
 
     f = ctx.repo.method(PARAMETER, "__set__")
@@ -247,44 +247,20 @@ def run(ctx):
     (ctx.ok if slot_read else ctx.fail)("R03.e", te, te.node, "_trigger_event iterates self.watchers[attribute]" if slot_read else "_trigger_event does not read self.watchers[attribute]")
 
     # ------------------------------------------------------------- R03.f
+    from checks.dispatch_model import call_watcher_outcome
     cw = ctx.repo.func(P + "Parameters._call_watcher")
     n = 0
     bad = []
-    for trig_, oc, changed, batch in itertools.product([True, False], repeat=4):
-        w = Obj("watcher", onlychanged=oc, queued=False)
-        ns = Obj("ns", _TRIGGER=trig_, _BATCH_WATCH=batch, _events=[], _state_watchers=[], self_or_cls=Obj("owner"))
-        it = None
-
-        def hook(name, args, kwargs):
-            if name.endswith("._changed"):
-                return changed
-            if name.endswith("._execute_watcher"):
-                it.trace.append("execute")
-                return None
-            if name.endswith("._update_event_type"):
-                return Obj("typed_event")
-            if name == "_batch_call_watchers":
-                return Obj("scope")
-            return NotImplemented
-        it = Interp(ctx.hier, call_hook=hook)
-        try:
-            outs = it.run_all(cw, {"self_": ns, "watcher": w, "event": Obj("event")})
-        except Unsupported as e:
-            raise AnalysisError("absint cannot interpret _call_watcher: %s" % e)
+    for trig_, oc, changed, batch, queued in itertools.product([True, False], repeat=5):
+        got, ns, w, _ = call_watcher_outcome(ctx, trig_, oc, changed, batch, queued=queued)
         n += 1
         skip = (not trig_) and oc and (not changed)
         want = "skip" if skip else ("queue" if batch else "execute")
-        for o in outs:
-            if o.imprecise:
-                raise AnalysisError("absint imprecise on _call_watcher: %s" % o.notes)
-            queued = len(ns.attrs["_events"]) == 1 and len(ns.attrs["_state_watchers"]) == 1
-            executed = "execute" in o.trace
-            got = "queue" if queued and not executed else ("execute" if executed and not queued else ("skip" if not queued and not executed else "both"))
-            if got != want:
-                bad.append((trig_, oc, changed, batch, got, want))
+        if got != want:
+            bad.append((trig_, oc, changed, batch, got, want))
     ctx.abstract_cases += n
     ctx.exhaustive = True
     if bad:
         ctx.fail("R03.f", cw, cw.node, "dispatch decision wrong for (TRIGGER=%s, onlychanged=%s, changed=%s, batching=%s): code does `%s`, specification `%s`" % bad[0])
     else:
-        ctx.ok("R03.f", cw, cw.node, "16/16 abstract cases agree with the specification")
+        ctx.ok("R03.f", cw, cw.node, "32/32 abstract cases agree with the specification")
